@@ -180,6 +180,15 @@ CHECKS = {
         "DESIGN.md 6 C14",
         TRUST,
     ),
+    "C15": (
+        "TLC exhaustive check of Sched.tla (per-cell Load/Store micro-steps under arbitrary interleaving: deterministic exactly for "
+        "the classes output-distinct / output aliased to centre-read inputs; aliased neighbour reads refuted) + TLC trace validation "
+        "(TraceKernels.tla monitor) of every compiled-kernel call recorded from all generators, simulator steps, solvers and the "
+        "coupling reset, with a corrupted-trace self-test + bit-identity of every zoo kernel for 1, 2, 5, 16 threads + serial spreading",
+        "Model checking over all schedules of one call + trace validation that every real call is in the schedule-independent class.",
+        "DESIGN.md 6 C15",
+        TRUST,
+    ),
 }
 
 NOT_YET = "check not built yet in this round (see DESIGN.md 11 for the build order)"
